@@ -172,6 +172,12 @@ Theorem C03_constraints_sound_exact_guard : forall u values drop b, uok u ->
 Proof. exact user_sound_exact. Qed.
 Print Assumptions C03_constraints_sound_exact_guard.
 
+Theorem C03_violation_justified_exact_guard : forall u values drop, uok u ->
+  guard_C03_function_zero_tight u (lookup (SDict values)) drop = true -> create_program u values drop = Err Violated ->
+  exists c r, In (c, r) (visible u (lookup (SDict values)) drop) /\ ceval r c = Some false.
+Proof. exact user_violation_justified_exact. Qed.
+Print Assumptions C03_violation_justified_exact_guard.
+
 (* ---- the helper functions that the operational model AND the specification use (Model.v: zrange, ren_drop, kept,
    adrop) characterised on their own: loop index values = Python's range; which inner channels a renaming MappingPT
    drops; which overwriting values / atoms are kept.  No theorem above looks inside them. ---- *)
